@@ -645,9 +645,18 @@ func sessionChargingReservation(
 				}
 			}
 
+			// the units granted are those the money actually held for this rating group buys
+			availableQuota := requestedQuota
+			if held := ue.ReservedQuota[rg]; held < int64(availableQuota) {
+				if held < 0 {
+					held = 0
+				}
+				availableQuota = uint64(held)
+			}
+
 			sur.ServiceRating = &charging_datatype.ServiceRating{
 				ServiceIdentifier: datatype.Unsigned32(rg),
-				MonetaryQuota:     datatype.Unsigned32(requestedQuota),
+				MonetaryQuota:     datatype.Unsigned32(availableQuota),
 				RequestSubType:    charging_datatype.REQ_SUBTYPE_RESERVE,
 			}
 
